@@ -31,3 +31,21 @@ Definition demo_thr_statement : Prop :=
 
 Lemma demo_thr_warms_up : demo_thr_statement.
 Proof. vm_compute. split; reflexivity. Qed.
+
+(* Finding C11-F6: a Throttling warm-up rule under sustained demand that never reaches the full threshold.
+   Threshold 10, period 3 s, cold factor 2 (cold rate 5/s), 12 evenly spaced requests per second for 30 s
+   (demand above the threshold throughout, 4*period+5 = 17 s would do): the pacing interval admits every third
+   request, 4 per second, which is below the cold rate, so the calculator refills the bucket every second
+   and the allowed value stays below 6. *)
+Definition f6_ops : list (Z * Z) :=
+  flat_map (fun s => map (fun j => (1700000000010 + s * 1000 + j * 83, 1)) [0;1;2;3;4;5;6;7;8;9;10;11])
+           [0;1;2;3;4;5;6;7;8;9;10;11;12;13;14;15;16;17;18;19;20;21;22;23;24;25;26;27;28;29].
+
+Definition f6_statement : Prop :=
+  let r := wrun_thr (mk_wcfg 10 3 2) 0 winit last0 f6_ops in
+  length r = 360%nat /\
+  forallb (fun o => (fst (fst (fst o)) <? 6)%float) r = true /\
+  existsb (fun o => snd (fst (fst o))) r = true.
+
+Lemma f6_never_warms_up : f6_statement.
+Proof. vm_compute. repeat split; reflexivity. Qed.
